@@ -124,34 +124,34 @@ def r1b(repo, run):
 
 
 def r2(repo, run):
+    """name resolution of the evaluated code, decided by evaluating GlobalsWrapper.__getattr__ (finite-domain evaluator) for
+    every combination of the name being defined by the node's own globals / the config / the builtins"""
+    from ..fde import FDE, Obj, Unsupported
+    import itertools
     fi = repo.func('GlobalsWrapper.__getattr__')
-    name = fi.params()[1]
-    order = []
-    def visit(stmts):
-        for s in stmts:
-            if isinstance(s, ast.If):
-                t = s.test
-                if isinstance(t, ast.Compare) and isinstance(t.ops[0], ast.In) and norm(t.left) == name:
-                    rets = [r for r in ast.walk(ast.Module(body=s.body, type_ignores=[])) if isinstance(r, ast.Return)]
-                    order.append((norm(t.comparators[0]), norm(rets[0].value) if rets else None, s))
-                else:
-                    raise AnalysisError('GlobalsWrapper.__getattr__: test %s not recognised' % norm(t))
-                visit(s.orelse)
-            elif isinstance(s, ast.Raise):
-                order.append(('raise', norm(s.exc), s))
-            elif isinstance(s, ast.Expr) and isinstance(s.value, ast.Constant):
-                continue
-            else:
-                raise AnalysisError('GlobalsWrapper.__getattr__: statement %s outside the decision-list shape' % norm(s)[:60])
-    visit(fi.node.body)
-    want = [('self.gbls', 'self.gbls[%s]' % name), ('self.ecfg._cfgobj', 'self.ecfg[%s]' % name), ('__builtins__', '__builtins__[%s]' % name)]
-    got = [(a, b) for a, b, _ in order if a != 'raise']
-    if got != want:
-        run.violation('C12.R2', fi, ' > '.join(a for a, _ in got), 'names are resolved in the order %s with results %s; required: own globals (definitions, symbols), then config, then builtins' % ([a for a, _ in got], [b for _, b in got]))
-    elif not order or order[-1][0] != 'raise' or 'NameError' not in order[-1][1]:
-        run.violation('C12.R2', fi, 'fall-through', 'an unknown name does not raise NameError')
+    bad = []
+    rows = 0
+    for in_g, in_c, in_b in itertools.product((False, True), repeat=3):
+        ev = FDE(repo, stubs={'__getitem__', 'require_all_safe'}, stub=lambda name, recv, args, kwargs: ('config', args[0]) if name == '__getitem__' else None)
+        ev.free['__builtins__'] = {'n': 'from-builtins'} if in_b else {}
+        ecfg = Obj('ecfg', 'EvalContext.PartialChild', _cfgobj={'n': 'node'} if in_c else {})
+        w = Obj('wrapper', 'GlobalsWrapper', gbls={'n': 'from-globals'} if in_g else {}, ecfg=ecfg, ctx=Obj('ctx', 'EvalContext'), node=Obj('node', 'EvalNode'), path=[])
+        try:
+            r = ev.call(fi, w, 'n')
+        except Unsupported as e:
+            raise AnalysisError('GlobalsWrapper.__getattr__: finite-domain evaluator refused: %s' % e)
+        want = 'from-globals' if in_g else (('config', 'n') if in_c else ('from-builtins' if in_b else None))
+        rows += 1
+        where = 'defined by %s' % (', '.join(x for x, f in (('own globals', in_g), ('config', in_c), ('builtins', in_b)) if f) or 'nothing')
+        if want is None:
+            if r.raised != 'NameError':
+                bad.append('a name %s gives %s (required: NameError)' % (where, r.raised or repr(r.ret)))
+        elif r.raised is not None or r.ret != want:
+            bad.append('a name %s resolves to %s (required: %s)' % (where, r.raised or repr(r.ret), want))
+    if bad:
+        run.violation('C12.R2', fi, 'name resolution order', '%s; required: own globals (definitions, symbols), then config, then builtins, else NameError' % '; '.join(bad[:3]))
     else:
-        run.ok('C12.R2', fi, 'gbls > config > builtins > NameError')
+        run.ok('C12.R2', fi, 'gbls > config > builtins > NameError (%d membership combinations evaluated)' % rows)
 
 
 def r3(repo, run):
@@ -176,6 +176,9 @@ def r3(repo, run):
                         covered.add(id(x.node))
         if any(('Exception' in t.split(':', 1)[1] and 'EvalError' not in t) or 'BaseException' in t for t in exc):
             fin = tr.final_event(p)
+            if p.status == 'raise' and fin is not None and fin.value.text == '<reraise>' and \
+                    any(pol and t in ('isinstance(caught_exception, EvalError)', 'isinstance(caught_exception, errors.EvalError)') for t, pol in p.facts):
+                continue      # the caught exception is an EvalError already (catch-all handler that tests for it): re-raised as it is
             if p.status != 'raise' or fin is None or not fin.value.text.startswith(('EvalError(', 'errors.EvalError(')) or fin.target != 'caught_exception':
                 bad = (fin, 'an exception raised by user code is not converted into EvalError carrying the original exception as cause (handler ends with %s%s)' % (p.status, (' ' + fin.value.text[:40] + (' from ' + str(fin.target) if fin.target else ' without cause')) if fin is not None and fin.value is not None else ''))
     for k, e in sinks.items():
@@ -386,6 +389,66 @@ class _Multi(ast.AST):
     _fields = ('body',)
 
 
+class _CodeFields(dict):
+    """fields of the original code object: every co_* attribute exists and evaluates to a marker naming it"""
+
+    def __contains__(self, k):
+        return isinstance(k, str) and k.startswith('co_')
+
+    def __getitem__(self, k):
+        return ('original', k)
+
+
+def _ctor_by_evaluation(repo, run, fi, fam, inserts):
+    """the code object is not built by a literal types.CodeType(...) call (aliased constructor, argument list computed from a
+    table of field names): the helper that mentions types.CodeType is evaluated (finite-domain evaluator, interpreter >= 3.11
+    branch) on a symbolic original code object, and the constructor's actual arguments are inspected"""
+    from ..fde import FDE, Obj, Unsupported
+    n = 0
+    for g in fam:
+        def _type_test_only(x):
+            par = getattr(x, '_parent', None)
+            while isinstance(par, ast.Tuple):
+                par = getattr(par, '_parent', None)
+            return isinstance(par, ast.Call) and isinstance(par.func, ast.Name) and par.func.id in ('isinstance', 'issubclass') and x is not par.func
+        if not any(isinstance(x, ast.Attribute) and norm(x) == 'types.CodeType' and not _type_test_only(x) for x in ast.walk(g.node)):
+            continue
+        sites = [c for f in fam for c in calls_in(f.node) if isinstance(c.func, ast.Name) and c.func.id == g.name and f is not g]
+        if not sites or g.node.args.vararg or g.node.args.kwarg:
+            continue
+        code_param = fi.params()[0] if fi.params() else None
+        args = []
+        for a, pn in zip(sites[0].args, g.params()):
+            if isinstance(a, ast.Name) and a.id == code_param:
+                o = Obj('code', '<code object>')
+                o.f = _CodeFields()
+                args.append(o)
+            else:
+                args.append(['<%s>' % pn])
+        if len(args) != len(g.params()):
+            continue
+        captured = []
+
+        def ctor(*a, **k):
+            captured.append((a, k))
+            return 'new code object'
+        ctor._fde_ok = True
+        ev = FDE(repo, stubs={'python_is_at_least'}, stub=lambda name, recv, a, k: True)
+        ev.extcalls['types.CodeType'] = ctor
+        try:
+            ev.call(g, *args)
+        except Unsupported as e:
+            raise AnalysisError('%s: construction of the new code object could not be evaluated: %s' % (g.qualname, e))
+        for a, k in captured:
+            n += 1
+            vals = list(a) + list(k.values())
+            if ('original', 'co_exceptiontable') in vals and inserts:
+                run.violation('C12.R7', fi, 'types.CodeType(..., code.co_exceptiontable, ...)', 'the exception table (byte offsets of try/with ranges and handlers) of the original code is attached unchanged to bytecode into which instructions were inserted: a try/with block after a redirected name load no longer covers its body (an exception raised there is not caught)', node=sites[0])
+            else:
+                run.ok('C12.R7', (fi.file, g.node.lineno, fi.qualname), 'exception table is not passed verbatim', 'recomputed or no instruction inserted (constructor arguments evaluated from %s)' % g.qualname)
+    return n
+
+
 def r7r8(repo, run):
     fi = repo.func('EvalNode._patch_access_to_globals')
     fam = _family(repo, fi)
@@ -403,6 +466,8 @@ def r7r8(repo, run):
                 run.violation('C12.R7', fi, 'types.CodeType(..., code.co_exceptiontable, ...)', 'the exception table (byte offsets of try/with ranges and handlers) of the original code is attached unchanged to bytecode into which instructions were inserted: a try/with block after a redirected name load no longer covers its body (an exception raised there is not caught)', node=c)
             else:
                 run.ok('C12.R7', (fi.file, c.lineno, fi.qualname), 'exception table is not passed verbatim', 'recomputed or no instruction inserted')
+    if n == 0:
+        n = _ctor_by_evaluation(repo, run, fi, fam, inserts)
     if n == 0:
         raise AnalysisError('_patch_access_to_globals: construction of the new code object not found')
     src = ' '.join(norm(f.node) for f in fam)
